@@ -262,6 +262,11 @@ pub fn canonical_codes(lengths: &[u8]) -> Vec<u16> {
         .collect()
 }
 
+thread_local! {
+    /// when set, `random_complete_depths` builds maximally skewed trees
+    static SKEW: std::cell::Cell<bool> = std::cell::Cell::new(false);
+}
+
 /// random complete prefix code with `n` leaves and depth <= maxdepth; returns the multiset
 /// of depths (unsorted). n >= 2, n <= 2^maxdepth.
 fn random_complete_depths(n: usize, maxdepth: u8, mix: &mut Mix, balanced: bool) -> Vec<u8> {
@@ -276,6 +281,9 @@ fn random_complete_depths(n: usize, maxdepth: u8, mix: &mut Mix, balanced: bool)
         let i = if balanced {
             // split the shallowest leaf -> near-balanced tree
             *cands.iter().min_by_key(|&&i| leaves[i]).unwrap()
+        } else if SKEW.with(|s| s.get()) {
+            // split the deepest splittable leaf -> chain-like tree with codes up to maxdepth bits
+            *cands.iter().max_by_key(|&&i| leaves[i]).unwrap()
         } else {
             cands[mix.below(cands.len())]
         };
@@ -369,7 +377,11 @@ fn build_random_code(
         }
     }
     if !grouped_ok {
-        depths = random_complete_depths(n, maxdepth, mix, style < 3);
+        // 15 %: skewed (chain-like) code with the longest possible codes
+        let skew = mix.chance(15);
+        SKEW.with(|s| s.set(skew));
+        depths = random_complete_depths(n, maxdepth, mix, !skew && style < 3);
+        SKEW.with(|s| s.set(false));
     }
     // assign depths: either randomly, or shorter codes to more frequent symbols
     if let (Some(f), true) = (freq, style >= 5) {
